@@ -106,6 +106,22 @@ def stepCodec (s : CState) (toks : List String) : Option (CState × String) :=
     let pre := dst.setRaw src.raw
     let (m', _) := pre.decode
     some ((s.set (nat! j) m').setStale (nat! j) (staleAfter (s.isStale (nat! j)) pre), showDecode m' pre)
+  -- the same clone, after which the harness scribbles over the source (the clone must not notice), then restores it
+  | ["CLONEMUT", i, j] =>
+    let src := s.get (nat! i)
+    let dst := s.get (nat! j)
+    let pre := dst.setRaw src.raw
+    let (m', _) := pre.decode
+    some ((s.set (nat! j) m').setStale (nat! j) (staleAfter (s.isStale (nat! j)) pre), showDecode m' pre)
+  -- MarshalBinary / GobEncode / WriteTo hand out the raw bytes (a copy: the harness scribbles over the source before
+  -- it prints what it got)
+  | ["MARSHAL", i, _] => some (s, showHex (s.get (nat! i)).raw)
+  | ["WRITETO", i] => some (s, showHex (s.get (nat! i)).raw)
+  -- (*Message).AddTo(b): b gets m's transaction id (for crafting responses)
+  | ["MSGADDTO", i, j] =>
+    let m := ({ s.get (nat! j) with tid := (s.get (nat! i)).tid } : Msg).writeTransactionID
+    let s' := s.set (nat! j) m
+    some (s', s'.dumpS (nat! j))
   | ["ISMSG", h] => some (s, s!"{isMessage (hex! h)}")
   | ["RESET", i] => let m := (s.get (nat! i)).reset; some ((s.set (nat! i) m).setStale (nat! i) false, dump m)
   | ["WHDR", i] => let m := (s.get (nat! i)).writeHeader; let s' := s.set (nat! i) m; some (s', s'.dumpS (nat! i))
